@@ -112,6 +112,7 @@ func c15Programs(tier string) ([]*Spec, [][]string) {
 						case "ext":
 							sp.Bars[fb].ExtErrAt = k
 							sp.Bars[fb].ExtRows = 1
+							sp.Bars[fb].ExtRev = k%2 == 0 // rows above the bar for even k
 						case "write":
 							sp.FailWrite = k
 						}
@@ -124,6 +125,38 @@ func c15Programs(tier string) ([]*Spec, [][]string) {
 					}
 				}
 			}
+		}
+	}
+	// the output fails in a frame that leaves no line to overwrite: only text (no bars), or pop mode's last pop frame
+	for _, rf := range []string{"auto", "manual"} {
+		for _, k := range []int{1, 2, 3} {
+			sp := &Spec{Name: fmt.Sprintf("c15-lineless-text@%d", k), Refresh: rf, Q: -1, FailWrite: k}
+			ops := []Op{{K: "write", S: "line-a\n"}}
+			if rf == "manual" {
+				ops = append(ops, Op{K: "refresh"})
+			}
+			ops = append(ops, Op{K: "write", S: "line-b\n"})
+			if rf == "manual" {
+				ops = append(ops, Op{K: "refresh"})
+			}
+			ops = append(ops, Op{K: "write", S: "line-c\n"})
+			if rf == "manual" {
+				ops = append(ops, Op{K: "refresh"}, Op{K: "refresh"})
+			}
+			sp.Clients = [][]Op{ops}
+			out = append(out, sp)
+			tags = append(tags, []string{"fault:write"})
+			sp2 := &Spec{Name: fmt.Sprintf("c15-lineless-pop@%d", k), Refresh: rf, Q: -1, FailWrite: k + 1, Pop: true}
+			sp2.Bars = []BarSpec{{Total: 1}}
+			sp2.Main = []Op{{K: "add", B: 0}}
+			c := []Op{{K: "incr", B: 0, N: 1}}
+			if rf == "manual" {
+				c = append(c, Op{K: "refresh"}, Op{K: "refresh"}, Op{K: "refresh"}, Op{K: "refresh"}, Op{K: "refresh"})
+			}
+			sp2.Clients = [][]Op{c}
+			sp2.Late = []Op{{K: "get", B: 0}}
+			out = append(out, sp2)
+			tags = append(tags, []string{"fault:write"})
 		}
 	}
 	// the terminal-size query fails: the output is a pseudo terminal that is closed under the container's feet
